@@ -209,7 +209,7 @@ def build_direct(aspec):
     return a
 
 
-def blueprint_text(designs, settings_detail):
+def blueprint_text(designs):
     """Render 1-3 assembly designs (same number of blocks and heights) as a blueprint; block-level keys the shared renderer
     does not know (flags, axial expansion target component) are inserted after the block header line."""
     from vlib import gen
@@ -900,10 +900,7 @@ def do_blueprint(spec, rec):
             designs.append(nxt)
         detailed = rng.random() < .5
         w = {"case": i, "designs": [describe(d) for d in designs], "detailedAxialExpansion": detailed}
-        try:
-            text = blueprint_text(designs, detailed)
-        except Exception as e:
-            raise
+        text = blueprint_text(designs)
         del EVENTS[:]
         try:
             r, cs, bp, _ = gen.build_reactor(text, {"inputHeightsConsideredHot": False, "detailedAxialExpansion": detailed})
